@@ -1,6 +1,7 @@
 // text_h.cpp — correspondence harness for the text layer: deserializeJson, parseNumber,
 // Utf8::encodeCodepoint, TextFormatter::writeString.  One case per stdin line.
 #include "common.hpp"
+#include "typed_obs.hpp"
 
 struct VecBuilder {
   std::string out;
@@ -47,7 +48,7 @@ static std::string handle(const std::vector<std::string>& a) {
                                : deserializeJson(doc, rd, DeserializationOption::Filter(fv), DeserializationOption::NestingLimit((uint8_t)L));
     }
     return std::string(codeName(err)) + " " + std::to_string(rd.reads) + " " +
-           (rd.fault ? "FAULT" : "ok") + " " + dump(doc.as<JsonVariantConst>());
+           (rd.fault ? "FAULT" : "ok") + " " + dumpTyped(doc);
   }
   if (a[0] == "N" && a.size() == 2) {
     std::string s = unhex(a[1]);
